@@ -2,5 +2,11 @@
    ExtrOcamlBasic only maps bool, option, list, prod, unit, sumbool to OCaml's). *)
 Require Extraction.
 Require Import ExtrOcamlBasic.
-From Chibicc Require Import Model.Hashmap Model.HashmapC.
-Extraction "modelext.ml" c_empty c_step fnv capacity.
+From Coq Require Import NArith Bool.
+From Chibicc Require Import Model.Hashmap Model.HashmapC Model.Unicode Gen.UnicodeTables Spec.Utf
+     Model.IntLit Spec.IntLitSpec.
+Definition is_ident1_m (c : N) : bool := in_range ident1_ranges c.
+Definition is_ident2_m (c : N) : bool := is_ident1_m c || in_range ident2_ranges c.
+Extraction "modelext.ml" c_empty c_step fnv capacity
+  encode_utf8 decode_utf8 utf16_units rfc3629 utf16_spec is_ident1_m is_ident2_m spec_ident_start spec_ident_cont
+  lit_type c11_literal_type.
